@@ -318,12 +318,14 @@ func TestCheck(t *testing.T) {
 			nLock++
 		}
 		// One database just over 4 GiB (65537 pages of 64 KiB): grow, shrink back (byte offsets beyond 32 bits in the
-		// truncate), write the last page. About four minutes and 20 GB of memory on its own.
+		// truncate), write the last page, restart. About four minutes and 20 GB of memory on its own.
 		if avail := vlib.MemAvailableGiB(); avail >= 30 {
 			cases = append(cases, prog.Case{PageSize: 65536, Start: 65537, Ops: []prog.Op{
 				r(pager.RTx{NewSize: 65539, Mods: []uint32{2}, Final: "DELETE", Outcome: "commit"}),
 				r(pager.RTx{NewSize: 65537, Final: "DELETE", Outcome: "commit"}),
-				r(pager.RTx{Mods: []uint32{65537}, Final: "DELETE", Outcome: "commit"})}})
+				r(pager.RTx{Mods: []uint32{65537}, Final: "DELETE", Outcome: "commit"}),
+				// start-up applies the newest transaction file again: LiteFS's own write of a page that starts at byte 2^32
+				{Kind: "restart"}}})
 			nLock++
 		} else {
 			fourGiBSkipped = fmt.Sprintf("not run: it needs about 20 GiB of memory-backed scratch and %d GiB are available", avail)
